@@ -324,16 +324,23 @@ def sequence_case(draw):
     manager re-evaluate its uploads (friend list, block list of another user, rescan, shared-directory update)."""
     role = draw(st.sampled_from(['D', 'D', 'D', 'U']))
     p = draw(_peer(role, slow_bias=True))
-    variant = draw(st.sampled_from(['connect', 'reply', 'mid', 'queued']))
+    variant = draw(st.sampled_from(['connect', 'reply', 'mid', 'queued', 'fresh', 'fresh']))
+    exec_fresh = draw(st.sampled_from([0, 1, 3, 5]))
+    if variant == 'fresh':
+        role = 'D'      # the call lands between the arrival of the peer's queue request and the start of the upload
     n = 2 if variant == 'queued' else draw(st.sampled_from([1, 1, 2]))
     p['xfers'] = [{'at': draw(st.sampled_from([0, 0, 40])), 'size': draw(st.integers(6000, 30000))} for _ in range(n)]
     p['indirect'] = draw(st.sampled_from(['silent', 'cannot', 'pierce']))
     kbps = 0
     if role == 'D':
-        if variant in ('connect', 'queued'):
+        if variant in ('connect', 'queued', 'fresh'):
             p.update({'drop_link': True, 'direct': 'accept', 'direct_ms': draw(st.sampled_from([3000, 6000, 9000])),
                       'silent': False, 'allow': True, 'reply_ms': 2, 'offset_ms': 2})
             lo, hi = 120, p['direct_ms'] - 100
+            if variant == 'fresh':
+                # queue request arrives after 1 ms, the shared item / file size look-ups and the cycle that starts the
+                # upload follow within a few file-system calls
+                lo, hi = p['xfers'][0]['at'] + 1, p['xfers'][0]['at'] + 3 + 3 * exec_fresh
         elif variant == 'reply':
             p.update({'drop_link': False, 'silent': draw(st.booleans()), 'allow': True,
                       'reply_ms': draw(st.sampled_from([6000, 9000, 29000]))})
@@ -357,8 +364,11 @@ def sequence_case(draw):
     at = draw(st.integers(lo, max(lo, hi)))
     first = draw(st.sampled_from(['pause', 'pause', 'pause', 'abort']))
     then = draw(st.sampled_from(['abort', 'abort', 'remove'])) if first == 'pause' else 'remove'
+    if variant == 'fresh' and draw(st.booleans()):
+        first, then = draw(st.sampled_from(OPS)), None
     gap = draw(st.sampled_from([0, 1, 60, 1000, 4000]))
-    ops = [{'peer': 0, 'xfer': xi, 'op': first, 'at': at, 'steps': draw(st.sampled_from([0, 0, 1, 3])), 'then': then,
+    ops = [{'peer': 0, 'xfer': xi, 'op': first, 'at': at,
+            'steps': draw(st.sampled_from([0, 2, 4, 6] if variant == 'fresh' else [0, 0, 1, 3])), 'then': then,
             'gap': gap, 'steps2': draw(st.sampled_from([0, 0, 1, 3]))}]
     trig = []
     for _ in range(draw(st.integers(1, 3))):
@@ -367,8 +377,13 @@ def sequence_case(draw):
     for _ in range(draw(st.integers(0, 2))):
         trig.append({'at': draw(st.integers(0, at + gap + 6000)), 'kind': draw(st.sampled_from(['status', 'adduser', 'add'])),
                      'user': draw(st.integers(0, len(peers))), 'status': draw(st.sampled_from([2, 2, 1])), 'pad': 0})
+    if variant == 'fresh' and draw(st.booleans()):
+        # an unrelated status message handled in the instant of the call requests a management cycle right then
+        trig.append({'at': max(0, at - 1), 'kind': 'status', 'user': len(peers), 'status': 2,
+                     'pad': draw(st.integers(0, 6))})
+    exec_ms = exec_fresh if variant == 'fresh' else draw(st.sampled_from([0, 0, 1, 3]))
     return {'mode': draw(st.sampled_from(['fallback', 'race'])), 'up_kbps': kbps, 'down_kbps': 0,
-            'exec_ms': draw(st.sampled_from([0, 0, 1, 3])), 'peers': peers, 'triggers': trig, 'ops': ops}
+            'exec_ms': exec_ms, 'peers': peers, 'triggers': trig, 'ops': ops}
 
 
 # ---------------------------------------------------------------------------
